@@ -239,6 +239,8 @@ PROPS["C03"]["components"].append(Sched("tc", 1500, 60000, label="sched-tc-gate"
 PROPS["C03"]["trusted_base"] = PROPS["C03"]["trusted_base"] + TB_SCHED
 
 PROPS["C07"]["components"].append(Sched("cfg", 3000, 100000, label="sched-cfg-deadline", only="C07:"))
+PROPS["C05"]["components"].append(Sched("cfg", 3000, 100000, label="sched-cfg-kind", only="C05:"))
+PROPS["C05"]["rule"] += " cfg (schedules): one call racing one live reconfiguration (limits, timeout, flags, IgnoreInterrupts, the interrupt classifier) must be reported as the kind the old or the new configuration yields."
 PROPS["C07"]["rule"] += " cfg (schedules): one call racing one Timeout change: the deadline its run function sees is start+old or start+new (or none), never anything else."
 for _pid in ("C04", "C07", "C08", "C11"):
     PROPS[_pid]["components"].append(Sched("cfg2", 1500, 60000, only=_pid + ":"))
